@@ -113,6 +113,52 @@ def kwcall(b: bytes) -> int:
 def decimal_unbounded(a: int) -> int:
     from decimal import Decimal
     return int(Decimal(a) * Decimal(a))
+import sys
+PY3 = sys.version_info > (3,)
+PLAT = sys.platform == "linux"
+def append_param(t, n: int) -> int:
+    t.append(n)
+    return n
+def append_alias(n: int) -> int:
+    a = [1]
+    b = a
+    a.append(n)
+    return b[0]
+def append_value(n: int) -> int:
+    a = [1]
+    x = a.append(n)
+    return n
+def tuple_store(n: int) -> int:
+    a = [1, 2]
+    t = tuple(a)
+    t[n] = 3
+    return t[0]
+def store_raise(n: int) -> int:
+    a = [1, 2]
+    a[n] = 3
+    return a[0]
+def two_whiles(a: int) -> int:
+    b = []
+    while a > 0:
+        c = a
+        while c > 0 and b[c] == 0:
+            c -= 1
+        b.append(c)
+        a -= 1
+    return len(b)
+def py3(a: int) -> int:
+    if PY3:
+        return a
+    else:
+        return ord(a)
+def plat(a: int) -> int:
+    if PLAT:
+        return a
+    return 0
+def cond_raise_while(b: bytes, j: int) -> int:
+    while j > 0 and b[j] != 0:
+        j -= 1
+    return j
 '''
 PT = ("P", [("a", "int"), ("t", "ints")])
 CASES = [   # (function, extra spec, expected substring of the error | None = must translate)
@@ -145,6 +191,18 @@ CASES = [   # (function, extra spec, expected substring of the error | None = mu
     ("compr", {}, "ListComp"),
     ("kwcall", {}, "keyword arguments"),
     ("decimal_unbounded", {}, "not in the subset"),
+    ("append_param", {"params": {"t": "ints"}}, "mutated in place"),
+    ("append_alias", {}, "mutated in place"),
+    ("append_value", {}, "call of a.append"),
+    ("tuple_store", {}, "mutated in place"),
+    ("store_raise", {}, None),                               # translates, with the raising Py.setItem
+    ("two_whiles", {"fuel": "a + 1"}, None),                 # nested loops, one fuel expression for both
+    ("two_whiles", {"fuel": ["a + 1"]}, "1 `fuel` expressions for 2 while loops"),
+    ("two_whiles", {"fuel": ["a + 1", "c + 1"]}, None),
+    ("py3", {}, None),                                       # `sys.version_info > (3,)`: the Python-3 branch only
+    ("plat", {}, "sys.platform is not in the subset"),                       # any other module-level Bool is not a constant of the subset
+    ("cond_raise_while", {"fuel": "j + 1"}, None),           # short-circuit `and` with a raising right operand
+
 ]
 
 def main():
